@@ -71,8 +71,9 @@ def sub_ref(case):
     if slack > 1e-7:
         req(abs(r) <= 1.5, "autocorr_1d = %.9g far outside [-1,1] %s" % (r, desc), "autocorr out of range")
         return None
-    req(abs(r) <= 1 + 1e-9, "autocorr_1d = %.9g outside [-1,1] %s" % (r, desc), "autocorr out of range")
-    tol = 1e-6 if enc != "float32" or case.get("integral", True) else 1e-5
+    # slack is the a-priori relative rounding error of the single-pass sums for this input (0 for exactly summable integer data)
+    req(abs(r) <= 1 + 1e-9 + 100 * slack, "autocorr_1d = %.12g outside [-1,1] %s" % (r, desc), "autocorr out of range")
+    tol = (1e-6 if enc != "float32" or case.get("integral", True) else 1e-5) + 100 * slack
     req(abs(r - want) <= tol, "autocorr_1d = %.9g, mean-filled Pearson reference = %.9g %s" % (r, want, desc),
         "autocorr differs from reference")
     return r
